@@ -7,7 +7,8 @@ usage: tools/bridge_selftest.py [--quick] [--no-pipeline] [--frozen-table] [--se
                      ==  harness `coreast` (real parser + real typed accessors) on
                        (a) multi-file programs of the scope-tracking generator lib/tdgen.py,
                        (b) the LLVM corpus files and prefix-free windows of their top-level statements,
-                       (c) hand-written programs that cover every CoreAst constructor (coverage is CHECKED);
+                       (c) hand-written programs that cover every CoreAst constructor (coverage is CHECKED),
+                       (d) damaged programs (random spans deleted / duplicated / replaced): syntax errors, noncore reasons;
   2. check_pipeline: goto_definition + references at every offset and the diagnostics computed END TO END IN
                      COQ FROM THE TEXTS  ==  the real Analysis (harness `idedump`).
 
@@ -120,6 +121,34 @@ def corpus_windows(rng, n, max_bytes=6000):
     return out
 
 
+def damaged(rng, wss, n):
+    """syntax errors: generated / corpus programs with a random span deleted, duplicated or replaced by punctuation
+    (mandatory children go missing: the noncore reason and the FIRST failing file must agree)"""
+    out = []
+    while len(out) < n:
+        w = rng.choice(wss)
+        files = dict(w["files"])
+        p = rng.choice(sorted(files))
+        t = files[p]
+        if len(t) < 4:
+            continue
+        for _ in range(rng.choice([1, 1, 2, 3])):
+            a = rng.randrange(len(t))
+            b = min(len(t), a + rng.choice([1, 1, 2, 3, 5, 9, 17]))
+            k = rng.randrange(4)
+            if k == 0:
+                t = t[:a] + t[b:]
+            elif k == 1:
+                t = t[:b] + t[a:b] + t[b:]
+            elif k == 2:
+                t = t[:a] + rng.choice(["<", ">", "{", "}", "(", ")", ";", ",", "=", ":", "#", "!add", "\"", "[{", "?", ".", "include", "1"]) + t[b:]
+            else:
+                t = t[:a] + " " + t[a:]
+        files[p] = t
+        out.append({"files": files, "root": w["root"]})
+    return out
+
+
 def corpus_whole(max_bytes):
     files = sorted(glob.glob(os.path.join(VERIF, "corpus", "llvm14", "**", "*.td"), recursive=True))
     out = []
@@ -157,7 +186,9 @@ def main():
     hand = [{"files": {"/w/main.td": t}, "root": "/w/main.td"} for t in HAND] + HAND_MULTI
     wins = corpus_windows(rng, n_win)
     whole = corpus_whole(20000 if quick else 120000)
-    fam = [("generator lib/tdgen.py", gen), ("hand-written", hand), ("corpus windows", wins), ("corpus files", whole)]
+    dam = damaged(rng, gen + wins, 150 if quick else 600)
+    fam = [("generator lib/tdgen.py", gen), ("hand-written", hand), ("corpus windows", wins), ("corpus files", whole),
+           ("damaged programs", dam)]
 
     total = {"workspaces": 0, "files": 0, "core_files": 0, "disagreements": 0}
     tags = set()
@@ -188,7 +219,8 @@ def main():
 
     if "--no-pipeline" not in sys.argv:
         ptotal = {"workspaces": 0, "compared": 0, "queries": 0, "identifier_queries": 0, "disagreements": 0, "noncore": 0}
-        for name, wss in [("generator lib/tdgen.py", gen), ("hand-written", hand), ("corpus windows", wins[:len(wins) // 2])]:
+        for name, wss in [("generator lib/tdgen.py", gen), ("hand-written", hand), ("corpus windows", wins[:len(wins) // 2]),
+                          ("damaged programs", dam[:len(dam) // 2])]:
             t1 = time.time()
             r = bl.check_pipeline(None, wss, built=built)
             print("check_pipeline %-24s workspaces %4d  compared %4d  noncore %3d  offsets queried %7d  identifiers %6d  disagreements %d  (%.0f s)" % (
